@@ -15,6 +15,7 @@ IN_PACKAGE = {"inpkg", "inpkg-test"}
 GOMOD_SPELLINGS = {
     "plain": "module example.com/m\n", "tab": "module\texample.com/m\n", "quoted": "module \"example.com/m\"\n",
     "comment": "module example.com/m // trailing comment\n", "lead": "// heading comment\n\nmodule example.com/m\n", "crlf": "module example.com/m\r\n",
+    "block": "module (\n\texample.com/m\n)\n",
 }
 GOMOD_REST = ("\ngo 1.23\n\nrequire (\n\tgithub.com/anishathalye/porcupine v1.3.0\n\tgithub.com/stretchr/testify v1.10.0\n)\n\nrequire (\n\tgithub.com/davecgh/go-spew v1.1.2-0.20180830191138-d8f796af33cc // indirect\n"
               "\tgithub.com/pmezard/go-difflib v1.0.1-0.20181226105442-5d4384ee4fb2 // indirect\n\tgithub.com/stretchr/objx v0.5.2 // indirect\n"
